@@ -10,6 +10,7 @@ from httoop.status import (
 	BAD_REQUEST, HTTP_VERSION_NOT_SUPPORTED, LENGTH_REQUIRED, MOVED_PERMANENTLY, SWITCHING_PROTOCOLS,
 	URI_TOO_LONG,
 )
+from httoop.uri import URI
 from httoop.util import Unicode, _
 from httoop.version import ServerHeader, ServerProtocol
 
@@ -106,7 +107,7 @@ class ServerStateMachine(StateMachine):
 		path = self.message.uri.path
 		self.message.uri.normalize()
 		if path != self.message.uri.path:
-			raise MOVED_PERMANENTLY(self.message.uri.path.encode('UTF-8'))
+			raise MOVED_PERMANENTLY(URI(path=self.message.uri.path))
 
 	def validate_request_uri_scheme(self) -> None:
 		if self.message.uri.scheme:
